@@ -201,8 +201,8 @@ pub fn run(ctx: &Ctx) -> Rep {
     let all_entries_7 = ctx.pick(1, 16, 4);
     let perm_rate_6 = ctx.pick(1, 8, 1);
     let perm_rate_7 = ctx.pick(1, 8, 1);
-    let perms_each_6 = ctx.pick(1, 1, 4);
-    let perms_each_7 = ctx.pick(1, 1, 2);
+    let perms_each_6 = ctx.pick(1, 1, 8);
+    let perms_each_7 = ctx.pick(1, 1, 6);
     let xcheck_6 = ctx.pick(1, 16, 1);
     let xcheck_7 = ctx.pick(1, 128, 8);
     let twin_rate_6 = ctx.pick(1, 1, 1);
